@@ -17,7 +17,10 @@ META["bounds"] = c01.META["bounds"] + [
     "iterwalk (pure Python) over an element-stub tree vs the iterparse-contract stream (models without QName-typed values)",
 ]
 META["bounds"] = META["bounds"] + ["sources: every pool document (harness/mutate.py DOCS) as bytes, str, path, binary and text file object, lxml tree / element, ElementTree tree / element through the REAL front ends "
-                                   "of both handlers (selector driven, concrete runs): all must build the object the bytes build"]
+                                   "of both handlers (selector driven, concrete runs): all must build the object the bytes build",
+                                   "real_backends: every pool document x 11 user prefix maps through XmlSerializer (both writers) and TreeSerializer + lxml.etree.tostring: same infoset or all fail; "
+                                   "real_text: strings of 1-2 code points from 29 class representatives (line ends, markup characters, non-characters, surrogates, supplementary planes) at 10 places: both writers' documents carry the same infoset; "
+                                   "text_handlers: both handlers on a pool document with one comment / PI / CDATA section / character reference at every position (symbolic position)"]
 META["outside"] = c01.META["outside"] + ["everything the C libraries do on the WRITING side (escaping, encodings)"]
 
 SLEN = PART.get("slen", 2)
@@ -138,6 +141,83 @@ def sources(src: int, h: int) -> bool:
         return result(_sources(PART.get("doc", "basic"), cs, ch)["ok"])
 
 
+def _real_backends(doc, ns):
+    """The three writing backends through their real entry points and C halves: XmlSerializer with the native and the lxml writer,
+    TreeSerializer + lxml.etree.tostring, all with the same user prefix map; the documents must carry the same infoset (or all fail)."""
+    from harness import mutate
+    from lxml import etree
+    from xsdata.formats.dataclass.context import XmlContext
+    from xsdata.formats.dataclass.serializers import TreeSerializer, XmlSerializer
+
+    cls, obj = mutate.DOCS[doc]
+    ns_map = NS_MAPS[ns]
+    res = {}
+    for name in ("native", "lxml", "tree"):
+        try:
+            if name == "tree":
+                data = etree.tostring(TreeSerializer(context=XmlContext()).render(obj, dict(ns_map) if ns_map is not None else None))
+            else:
+                data = XmlSerializer(context=XmlContext(), writer=textpath.writers()[name]).render(obj, dict(ns_map) if ns_map is not None else None).encode()
+        except Exception as e:  # noqa: BLE001
+            res[name] = ("render raised", type(e).__name__, str(e)[:100])
+            continue
+        try:
+            res[name] = textpath.parse(data, cls, "native")
+        except Exception as e:  # noqa: BLE001
+            res[name] = ("parse raised", type(e).__name__, str(e)[:100])
+    kinds = {r[0] for r in res.values()}
+    ok = (kinds == {"ok"} and res["native"] == res["lxml"] == res["tree"]) or "ok" not in kinds
+    return {"ok": ok, "ns_map": repr(ns_map), **{k: repr(v)[:300] for k, v in res.items()}}
+
+
+def real_backends(ns: int) -> bool:
+    """
+    pre: 0 <= ns < len(NS_MAPS)
+    post: _
+    """
+    cn = concretize(ns, len(NS_MAPS))
+    with untraced():
+        return result(_real_backends(PART.get("doc", "basic"), cn)["ok"])
+
+
+_TH = {}
+
+
+def _th_n():
+    key = (PART.get("doc", "basic"), PART.get("kind", "comment"))
+    if key not in _TH:
+        with untraced():
+            _TH[key] = textpath.n_positions(*key)
+    return _TH[key]
+
+
+def _text_handlers(doc, kind, k):
+    """Both real handlers on the same well-formed TEXT (a pool document with one comment / PI / CDATA section / character reference)."""
+    cls, _text = textpath.doc_text(doc)
+    new = textpath.rewrite(doc, kind, k)
+    if new is None:
+        return {"ok": True, "skipped": "rewrite does not apply at this position"}
+    res = {}
+    for h in ("lxml", "native"):
+        try:
+            res[h] = textpath.parse(new, cls, h)
+        except Exception as e:  # noqa: BLE001
+            res[h] = ("raised", type(e).__name__)
+    return {"ok": res["lxml"] == res["native"], "document": new[:400], "lxml": repr(res["lxml"])[:300], "native": repr(res["native"])[:300]}
+
+
+def text_handlers(k: int) -> bool:
+    """
+    pre: 0 <= k < _th_n()
+    post: _
+    """
+    from harness.common import concretize_bs
+
+    ck = concretize_bs(k, _th_n())
+    with untraced():
+        return result(_text_handlers(PART.get("doc", "basic"), PART.get("kind", "comment"), ck)["ok"])
+
+
 def et_prefix_witness():
     """Known finding C08-elementtree-source-loses-prefixes through the public API."""
     import xml.etree.ElementTree as ET
@@ -152,7 +232,7 @@ def et_prefix_witness():
     return p.parse(ET.fromstring(xml), QNames) == p.from_string(xml, QNames)
 
 
-EXPLAIN = {"sources": lambda src, h: _sources(PART.get("doc", "basic"), src, h), "real_text": lambda c0, c1, place: explain_real_text(c0, c1, place)}
+EXPLAIN = {"text_handlers": lambda k: _text_handlers(PART.get("doc", "basic"), PART.get("kind", "comment"), k), "real_backends": lambda ns: _real_backends(PART.get("doc", "basic"), ns), "sources": lambda src, h: _sources(PART.get("doc", "basic"), src, h), "real_text": lambda c0, c1, place: explain_real_text(c0, c1, place)}
 
 
 # ---------------------------------------------------------------------------------------------------------------------
@@ -186,6 +266,11 @@ def plan(tier):
 
     for doc in sorted(mutate.DOCS):
         jobs.append(Job("sources", {"doc": doc}, 120, 30, note="real front ends: 9 source kinds x 2 handlers"))
+        jobs.append(Job("real_backends", {"doc": doc}, 120, 30, note="real writers + tree serializer under every user prefix map"))
+        if tier != "quick" or doc in ("basic", "mixed", "qnames", "wild", "temporal", "holder"):
+            for kind in ("comment", "pi", "cdata", "charref"):
+                if textpath.n_positions(doc, kind):
+                    jobs.append(Job("text_handlers", {"doc": doc, "kind": kind}, 300, 30, note="both real handlers on one text; position symbolic"))
     for place in range(len(textpath.PLACES)):
         jobs.append(Job("real_text", {"place": place}, 300, 30, note="real writers / parsers on text; code points by selector"))
     return jobs
